@@ -108,6 +108,21 @@ CLAIMED['C10'] = dict(
     note='RefSim + myokit.PacingSystem stand in for the native solver; integer grid of regimens; dataset-derived regimens: C14',
     technique='TLA+ spec (Dosing.tla) model-checked with TLC; spec->code replay with exact table comparison and mass balance',
     design='6/C10')
+CLAIMED['C11'] = dict(
+    engine='MechModel',
+    text='State machine of SBMLModel / PKPDModel with the hidden solver state (which solver an instance holds, which protocol, '
+         'sensitivity setting and model structure that solver was built with) and one micro-step program per public call. TLC '
+         'explores every history of calls on one (quick) / two (thorough, with copies) instances and checks that the reported '
+         'regimen is the one the solver holds at every return and at every Run, that instances never share a solver and that '
+         'hidden state is a function of the net configuration; the as-found update protocol is refuted. Every public-call '
+         'transition and TLC-simulated behaviours are replayed on real models against freshly configured ones, and the recorded '
+         'RefSim + method traces of those runs and of the repository solver-dependent tests are validated by TLC against the '
+         'trace specification (a corrupted trace is rejected).',
+    note='RefSim stands in for the native solver; bounded to 2 regimens, 2 output selections, 1 rename each, 2 instances; '
+         'oracle is a fresh model configured canonically (its correctness is C09/C10); re-administration keeps the regimen',
+    technique='TLA+ spec (MechModel.tla) model-checked with TLC; spec->code replay of transitions and simulated behaviours; '
+              'code->spec trace validation (Trace_MechModel.tla) of recorded executions incl. the repository tests',
+    design='6/C11')
 
 NOT_YET = {
 }
